@@ -30,6 +30,10 @@ Applies(k, f, g) ==
       [] k \in {"robobj_redefine_lo", "robobj_redefine_hi", "robobj_nonscalar_lo", "robobj_nonscalar_hi"} -> f \in RobustFronts
       [] k \in {"robobj_foreign_set_lo", "robobj_foreign_set_hi"} -> f \in RobustFronts /\ g \in RobustFronts
       [] k = "st_foreign_norm" -> f \notin {"lp"} /\ g \notin {"lp"}
+      \* arrays of the two models joined by the stacking functions (concat / rstack / vec: they stack raw coefficient matrices,
+      \* no arithmetic operator ever sees both operands), foreign operand first and last; fnorm / sumsqr of two arrays
+      [] k \in {"concat_foreign_first", "concat_foreign_last", "rstack_foreign", "vec_foreign"} -> TRUE
+      [] k \in {"sumsqr_two_foreign"} -> f \notin {"lp"} /\ g \notin {"lp"}
       [] OTHER -> FALSE
 \* misuses that need the victim NOT to have been solved / to be solved first
 Timing(k) == CASE k \in {"get_unsolved", "varget_unsolved"} -> {"before"}
